@@ -167,8 +167,9 @@ Definition all_keys (rowss : list (list orow)) : list (list val) := dedup_keys (
 Definition full_combos (rowss : list (list orow)) : list combo :=
   map (fun k => map (find_key k) rowss) (all_keys rowss).
 
-(* the engine's full join: left-deep FULL JOINs whose ON clause compares each new operand with the FIRST operand's
-   identifiers only — with three operands a key missing in the first one is not matched between the 2nd and 3rd *)
+(* the left-deep formulation the engine used before its repair (fix 94e8b5c): FULL JOINs whose ON clause compares each new
+   operand with the FIRST operand's identifiers only — with three operands a key missing in the first one is not matched
+   between the 2nd and 3rd.  Kept (impl := true) to recognise a regression; never used to excuse a disagreement *)
 Fixpoint full_impl_from (before : list header) (acc : list combo) (rest : list (header * list orow)) : list combo :=
   match rest with
   | [] => acc
@@ -306,59 +307,18 @@ Definition d_unqualify (d : dset) : res dset :=
   let ms := map unqual (d_ms d) in
   if has_dup (ids ++ ms) then Err "1-1-13-9" else Ok (mkD ids ms (d_rows d)).
 
-(* engine-faithful reading of a body expression: `isnull(not x)` is emitted as `(NOT x IS NULL)`, which SQL reads as
-   `not isnull(x)` (the NOT template has no parentheses) *)
-Fixpoint expr_impl (c : cexpr) : cexpr :=
-  match c with
-  | CCol n => CCol n
-  | CLit v => CLit v
-  | CBin op a b => CBin op (expr_impl a) (expr_impl b)
-  | CUn op a =>
-      match op, a with
-      | IsNull, CUn Not b => CUn Not (CUn IsNull (expr_impl b))
-      | _, _ => CUn op (expr_impl a)
-      end
-  | CIf c t e => CIf (expr_impl c) (expr_impl t) (expr_impl e)
-  | CNvl a b => CNvl (expr_impl a) (expr_impl b)
-  | CBetween a lo hi => CBetween (expr_impl a) (expr_impl lo) (expr_impl hi)
-  | CIn a l => CIn (expr_impl a) l
-  | CNotIn a l => CNotIn (expr_impl a) l
-  | CRound a n => CRound (expr_impl a) n
-  | CTrunc a n => CTrunc (expr_impl a) n
-  | CSubstr a st len => CSubstr (expr_impl a) st len
-  end.
-Definition clause_impl (c : jclause) : jclause :=
-  match c with
-  | JFilter e => JFilter (expr_impl e)
-  | JCalc defs => JCalc (map (fun df => (fst df, expr_impl (snd df))) defs)
-  | other => other
-  end.
-
 Definition d_join_stmt (impl : bool) (k : jkind) (us : option (list string)) (ops : list operand) (body : list jclause) : res dset :=
   bind ((if impl then d_join_impl else d_join) k us ops)
-       (fun d => bind (apply_body d (if impl then map clause_impl body else body)) d_unqualify).
+       (fun d => bind (apply_body d body) d_unqualify).
 
 (* ---------------------------------------------------------------- scripts: join statements and Model/Expr statements *)
 Inductive jstmt :=
 | SJoin (k : jkind) (us : option (list string)) (ops : list (string * string)) (body : list jclause)   (* (alias, dataset name) *)
 | SExpr (x : dexpr).
 
-Fixpoint dexpr_impl (x : dexpr) : dexpr :=
-  match x with
-  | DVar n => DVar n
-  | DBin op a b => DBin op (dexpr_impl a) (dexpr_impl b)
-  | DMap a body => DMap (dexpr_impl a) (expr_impl body)
-  | DFilter a c => DFilter (dexpr_impl a) (expr_impl c)
-  | DCalc a defs => DCalc (dexpr_impl a) (map (fun df => (fst df, expr_impl (snd df))) defs)
-  | DKeep a l => DKeep (dexpr_impl a) l
-  | DDrop a l => DDrop (dexpr_impl a) l
-  | DRename a l => DRename (dexpr_impl a) l
-  | DSub a l => DSub (dexpr_impl a) l
-  end.
-
 Definition jeval (impl : bool) (e : denv) (s : jstmt) : res dset :=
   match s with
-  | SExpr x => deval e (if impl then dexpr_impl x else x)
+  | SExpr x => deval e x
   | SJoin k us ops body =>
       bind (mapM (fun p => match dlook (snd p) e with Some d => Ok (fst p, d) | None => Err "1-2-2" end) ops)
            (fun l => d_join_stmt impl k us l body)
